@@ -234,6 +234,79 @@ def length_degree(fn, e, depth=0):
     return None
 
 
+def _is_cellish(e):
+    t = ast.unparse(e)
+    return t.endswith(".cell") or t in ("cell", "uc_vectors") or t.endswith("cell_vectors")
+
+
+def vec_mat_form(e, is_mat=_is_cellish):
+    """For a product of a lattice matrix M (rows = lattice vectors) with multiplier vector(s) v, return which matrix
+    is effectively applied in row-vector form v . X:  'M' (sum_k v_k * row_k, correct) or 'M.T' (wrong), else None."""
+    a = b = None
+    if isinstance(e, ast.Call) and call_name(e) in ("matmul", "dot") and len(e.args) == 2 and not kwargs_present(e):
+        a, b = e.args
+    elif isinstance(e, ast.Call) and isinstance(e.func, ast.Attribute) and e.func.attr == "dot" and len(e.args) == 1:
+        a, b = e.func.value, e.args[0]
+    elif isinstance(e, ast.BinOp) and isinstance(e.op, ast.MatMult):
+        a, b = e.left, e.right
+    if a is None:
+        return None
+
+    def mat(x):
+        if isinstance(x, ast.Attribute) and x.attr == "T" and is_mat(x.value):
+            return "T"
+        if is_mat(x):
+            return "M"
+        return None
+    ma, mb = mat(a), mat(b)
+    if (ma is None) == (mb is None):
+        return None
+    if ma is not None:      # matrix on the left: M @ v == v . M.T
+        return "M.T" if ma == "M" else "M"
+    return "M" if mb == "M" else "M.T"
+
+
+def kwargs_present(call):
+    return any(k.arg in ("axes", "out") for k in call.keywords)
+
+
+def linalg_chain(e, depth=0):
+    """Normal form of a product of named matrices: list of (name, transposed, inverted), or None.
+    Understands dot/matmul/@, .T, np.linalg.inv and np.linalg.solve(A, B) = inv(A) . B."""
+    if depth > 6:
+        return None
+    if isinstance(e, ast.Attribute) and e.attr == "T":
+        inner = linalg_chain(e.value, depth + 1)
+        if inner is None:
+            return None
+        return [(n, not t, i) for (n, t, i) in reversed(inner)]
+    if isinstance(e, ast.Call) and call_name(e) == "inv" and len(e.args) == 1:
+        inner = linalg_chain(e.args[0], depth + 1)
+        if inner is None:
+            return None
+        return [(n, t, not i) for (n, t, i) in reversed(inner)]
+    if isinstance(e, ast.Call) and call_name(e) == "solve" and len(e.args) == 2:
+        a, b = linalg_chain(e.args[0], depth + 1), linalg_chain(e.args[1], depth + 1)
+        if a is None or b is None:
+            return None
+        return [(n, t, not i) for (n, t, i) in reversed(a)] + b
+    a = b = None
+    if isinstance(e, ast.Call) and call_name(e) in ("matmul", "dot") and len(e.args) == 2 and not (isinstance(e.func, ast.Attribute) and not isinstance(e.func.value, ast.Name)):
+        a, b = e.args
+    elif isinstance(e, ast.Call) and isinstance(e.func, ast.Attribute) and e.func.attr == "dot" and len(e.args) == 1:
+        a, b = e.func.value, e.args[0]
+    elif isinstance(e, ast.BinOp) and isinstance(e.op, ast.MatMult):
+        a, b = e.left, e.right
+    if a is not None:
+        ca, cb = linalg_chain(a, depth + 1), linalg_chain(b, depth + 1)
+        if ca is None or cb is None:
+            return None
+        return ca + cb
+    if isinstance(e, (ast.Name, ast.Attribute)):
+        return [(ast.unparse(e), False, False)]
+    return None
+
+
 def eq_const(t):
     """`expr == const` or `const == expr` (also !=): returns (expr, const value, is_eq) or None."""
     if isinstance(t, ast.Compare) and len(t.ops) == 1 and isinstance(t.ops[0], (ast.Eq, ast.NotEq)):
